@@ -103,13 +103,27 @@ func checkC17(p *Prog, r *Report) {
 			}
 		}
 	})
-	writes := blockOfCall(p, tr, cmdGoosePkg+".writeFileIfChanged")
+	// the write call: the call in translate of a function of the command from which os.WriteFile is
+	// reached (the writer itself or a per-package wrapper around it)
+	w0 := directWriter(p)
+	var writes []*ssa.Call
+	p.instrs(tr, func(b *ssa.BasicBlock, i int, in ssa.Instruction) {
+		if c, ok := in.(*ssa.Call); ok {
+			if cal := calleeOf(&c.Call); cal != nil && w0 != nil {
+				for _, g := range p.region([]*ssa.Function{cal}) {
+					if g == w0 && cal.Pkg == w0.Pkg {
+						writes = append(writes, c)
+					}
+				}
+			}
+		}
+	})
 	if errIf == nil || len(writes) != 1 || errsV == nil {
 		r.Unknown("R17b", "translate loop shape", tr.Pos(), fmt.Sprintf("cannot find the per-package `errs[i] != nil` test (found=%v) and exactly one write call (found %d)", errIf != nil, len(writes)))
 		return
 	}
 	write := writes[0]
-	T, F := errIf.Block().Succs[0], errIf.Block().Succs[1]
+	T := errIf.Block().Succs[0]
 	// loop header: the block with phis that dominates errIf's block and has a back edge
 	var header *ssa.BasicBlock
 	for b := errIf.Block(); b != nil; b = b.Idom() {
@@ -208,36 +222,81 @@ func checkC17(p *Prog, r *Report) {
 			}
 		})
 	}
-	// --- R17b
-	W := write.Block()
-	r.Check("R17b", "translate writes every error-free package", instrPos(write), !pathAvoiding(F, header, map[*ssa.BasicBlock]bool{W: true}, nil, p),
-		"from the err == nil edge the next iteration is reachable without passing the write call: a package that translated cleanly is not written (its fate depends on other packages)")
+	// --- R17b (path-sensitive: on the abstract paths of translate that run the loop body exactly once)
 	var ignoreP *ssa.Parameter
 	for _, pa := range tr.Params {
 		if b, ok := pa.Type().Underlying().(*types.Basic); ok && b.Kind() == types.Bool {
 			ignoreP = pa
 		}
 	}
-	blocked := func(b *ssa.BasicBlock, i int) bool {
-		if len(b.Instrs) == 0 || ignoreP == nil {
-			return false
-		}
-		ifc, ok := b.Instrs[len(b.Instrs)-1].(*ssa.If)
-		if !ok {
-			return false
-		}
-		if ifc.Cond == ssa.Value(ignoreP) {
-			return i == 0 // the ignoreErrors==true edge is the permitted way through
-		}
-		if u, ok := ifc.Cond.(*ssa.UnOp); ok && u.Op == token.NOT && u.X == ssa.Value(ignoreP) {
-			return i == 1
-		}
-		return false
+	wcal := calleeOf(&write.Call)
+	keepB := map[*ssa.Function]bool{wcal: true}
+	if cal := calleeOf(&tpCall.Call); cal != nil {
+		keepB[cal] = true
 	}
-	r.Check("R17b", "translate writes a failed package only under -ignore-errors", instrPos(write),
-		ignoreP != nil && !pathAvoiding(T, W, map[*ssa.BasicBlock]bool{header: true}, blocked, p),
-		"from the err != nil edge the write call is reachable without passing the ignoreErrors test")
-	// --- R17c
+	bips, okb := p.ipathsKeeping(tr, keepB)
+	errPrefix := sk(errsV) + "["
+	missClean, wroteFailed, nOne := "", "", 0
+	for _, ip := range bips {
+		n := 0
+		for _, b := range ip.Root {
+			if b == errIf.Block() {
+				n++
+			}
+		}
+		if n != 1 {
+			continue
+		}
+		isNil, notNil := false, false
+		for k := range ip.Rels {
+			if i := topLevelIndex(k, " == "); i >= 0 && k[:i] == "nil" && strings.HasPrefix(k[i+4:], errPrefix) {
+				isNil = true
+			}
+			if i := topLevelIndex(k, " != "); i >= 0 && k[:i] == "nil" && strings.HasPrefix(k[i+4:], errPrefix) {
+				notNil = true
+			}
+		}
+		wrote := len(ip.eventsOf(fullName(wcal))) > 0
+		// a path that leaves through os.Exit before reaching the write (directory creation etc.) decides nothing
+		completed := ip.Exit == "return" || wrote
+		if !completed {
+			last := ""
+			if len(ip.Events) > 0 {
+				last = ip.Events[len(ip.Events)-1].Callee
+			}
+			if last == "os.Exit" && !notNil {
+				continue
+			}
+		}
+		nOne++
+		if isNil && !wrote {
+			missClean = "a package that translated without error is not written on the path " + ip.Trace
+		}
+		if notNil && wrote && (ignoreP == nil || !ip.Rels[ignoreP.Name()+" == true"]) {
+			wroteFailed = "a package whose translation failed is written without the fact " + "ignoreErrors == true on the path " + ip.Trace
+		}
+	}
+	r.Check("R17b", "translate writes every error-free package", instrPos(write), okb && nOne > 0 && missClean == "", missClean)
+	r.Check("R17b", "translate writes a failed package only under -ignore-errors", instrPos(write), okb && nOne > 0 && wroteFailed == "", wroteFailed)
+	// --- R17c (on the abstract paths of translate, per-package helpers spliced in)
+	itpF := p.Func(coqPkg, "ImportToPath")
+	var cfcF *ssa.Function // the function of the command that renders a coq.File with File.Write
+	for _, g := range p.FuncsIn(cmdGoosePkg) {
+		if len(blockOfCall(p, g, "("+coqPkg+".File).Write")) == 1 && g != tr {
+			cfcF = g
+		}
+	}
+	keep := map[*ssa.Function]bool{w0: true}
+	if itpF != nil {
+		keep[itpF] = true
+	}
+	if cfcF != nil {
+		keep[cfcF] = true
+	}
+	if cal := calleeOf(&tpCall.Call); cal != nil {
+		keep[cal] = true
+	}
+	ips, okp := p.ipathsKeeping(tr, keep)
 	var outRoot *ssa.Parameter
 	for _, pa := range tr.Params {
 		if pa.Name() == "outRootDir" {
@@ -247,48 +306,74 @@ func checkC17(p *Prog, r *Report) {
 	if outRoot == nil && len(tr.Params) >= 2 {
 		outRoot = tr.Params[1]
 	}
-	okPath, whyPath := false, ""
-	var fileAlloc ssa.Value
-	if jc, ok := write.Call.Args[0].(*ssa.Call); ok && (calleeName(jc) == "path.Join" || calleeName(jc) == "path/filepath.Join") {
-		k := sk(jc.Call.Args[0])
-		// find the ImportToPath call among the joined elements
-		var itp *ssa.Call
-		for _, d := range flowOperands(jc.Call.Args[0]) {
-			if c, ok := d.(*ssa.Call); ok && calleeName(c) == coqPkg+".ImportToPath" {
-				itp = c
+	okPath, okCont, nW := okp && itpF != nil && cfcF != nil, okp && itpF != nil && cfcF != nil, 0
+	whyPath, whyCont := "", "the written bytes must be the rendering (File.Write) of the same file whose path was computed"
+	if !okp {
+		whyPath = "the paths of translate could not be enumerated"
+	}
+	seenW := map[string]bool{}
+	for _, ip := range ips {
+		for _, e := range ip.Events {
+			if e.Callee != fullName(w0) || len(e.Args) < 2 || seenW[e.Args[0]+"\x00"+e.Args[1]] {
+				continue
 			}
-		}
-		if itp == nil {
-			whyPath = "joined elements " + k + " do not contain coq.ImportToPath(...)"
-		} else if !strings.HasPrefix(k, "["+outRoot.Name()+",") {
-			whyPath = "first path element is not the -out directory: " + k
-		} else {
-			o, fld, okf := fieldOf(itp.Call.Args[0])
-			if okf && fld == "PkgPath" && o.Obj().Name() == "File" {
-				okPath = true
-				if ld, ok := itp.Call.Args[0].(*ssa.UnOp); ok {
-					fileAlloc = ld.X.(*ssa.FieldAddr).X
-				}
+			seenW[e.Args[0]+"\x00"+e.Args[1]] = true
+			nW++
+			// path.Join([outRootDir,coq.ImportToPath(F.PkgPath,F.GoPackage)])
+			jn, ja, okj := parseCallKey(e.Args[0])
+			fileKey := ""
+			if !okj || (jn != "path.Join" && jn != "path/filepath.Join") || len(ja) != 1 {
+				okPath, whyPath = false, "written path is "+e.Args[0]+", not path.Join(outRootDir, coq.ImportToPath(...))"
 			} else {
-				whyPath = "ImportToPath is not applied to the file's PkgPath"
+				_, elems, _ := parseCallKey("x(" + strings.TrimSuffix(strings.TrimPrefix(ja[0], "["), "]") + ")")
+				if len(elems) != 2 || elems[0] != outRoot.Name() {
+					okPath, whyPath = false, "path elements are "+ja[0]+": the first must be the -out directory and the second coq.ImportToPath(...)"
+				} else {
+					// the second element is computed from F.PkgPath of one file value F — written as
+					// coq.ImportToPath(F.PkgPath, …) or with that helper's body spliced into the key
+					for _, e2 := range ip.Events {
+						if itpF != nil && e2.Callee == fullName(itpF) && strings.Contains(elems[1], e2.Key) && len(e2.Args) >= 1 && strings.HasSuffix(e2.Args[0], ".PkgPath") {
+							fileKey = strings.TrimSuffix(e2.Args[0], ".PkgPath")
+						}
+					}
+					if fileKey == "" {
+						okPath, whyPath = false, "second path element is "+elems[1]+", not coq.ImportToPath(f.PkgPath, …) of one file"
+					}
+				}
+			}
+			rendered := false
+			for _, e2 := range ip.Events {
+				if cfcF != nil && e2.Callee == fullName(cfcF) && e2.Key == e.Args[1] && len(e2.Args) == 1 && fileKey != "" && e2.Args[0] == fileKey {
+					rendered = true
+				}
+			}
+			if !rendered {
+				okCont = false
+				whyCont = "the written bytes are " + e.Args[1] + " while the path was computed for " + fileKey
 			}
 		}
-	} else {
-		whyPath = "written path is " + sk(write.Call.Args[0]) + ", not path.Join(outRootDir, coq.ImportToPath(...))"
+	}
+	if nW == 0 {
+		okPath, okCont, whyPath = false, false, "no call of the file writer on any path of translate"
 	}
 	r.Check("R17c", "translate output path", instrPos(write), okPath, whyPath)
-	okCont := false
-	if cc, ok := write.Call.Args[1].(*ssa.Call); ok && calleeName(cc) == cmdGoosePkg+".coqFileContents" {
-		if ld, ok := cc.Call.Args[0].(*ssa.UnOp); ok && fileAlloc != nil && ld.X == fileAlloc {
-			okCont = true
-		}
+	r.Check("R17c", "translate writes the contents of the same file", instrPos(write), okCont, whyCont)
+	if cfcF != nil {
+		r.Func(FuncName(cfcF))
+		calls := blockOfCall(p, cfcF, "("+coqPkg+".File).Write")
+		okW := len(calls) == 1 && len(cfcF.Params) >= 1 && calls[0].Call.Args[0] == ssa.Value(cfcF.Params[0])
+		r.Check("R17c", "the rendering helper returns f.Write output", cfcF.Pos(), okW, "the contents must be rendered from the argument with File.Write")
 	}
-	r.Check("R17c", "translate writes the contents of the same file", instrPos(write), okCont, "the written bytes must be coqFileContents(f) for the same f whose path was computed")
-	if cf := p.Func(cmdGoosePkg, "coqFileContents"); cf != nil {
-		r.Func(FuncName(cf))
-		calls := blockOfCall(p, cf, "("+coqPkg+".File).Write")
-		okW := len(calls) == 1 && calls[0].Call.Args[0] == ssa.Value(cf.Params[0])
-		r.Check("R17c", "coqFileContents is f.Write output", cf.Pos(), okW, "coqFileContents must render its argument with File.Write")
+	// a per-package wrapper around the writer calls it on every returning path
+	if cal := calleeOf(&write.Call); cal != nil && cal != w0 {
+		wips, okw := p.ipathsKeeping(cal, map[*ssa.Function]bool{w0: true})
+		all := okw
+		for _, ip := range wips {
+			if ip.Exit == "return" && len(ip.eventsOf(fullName(w0))) == 0 {
+				all = false
+			}
+		}
+		r.Check("R17b", FuncName(cal)+" writes the file on every returning path", cal.Pos(), all, "the per-package wrapper can return without calling the file writer")
 	}
 	// --- R17d
 	checkWriteIfChanged(p, r)
@@ -338,71 +423,51 @@ func flowOperands(v ssa.Value) []ssa.Value {
 }
 
 func checkWriteIfChanged(p *Prog, r *Report) {
-	f := p.Func(cmdGoosePkg, "writeFileIfChanged")
-	if f == nil {
-		r.Anchor("R17d", "cmd/goose.writeFileIfChanged")
+	f := directWriter(p)
+	if f == nil || len(f.Params) != 3 {
+		r.Anchor("R17d", "the function of cmd/goose that calls os.WriteFile(name, data, perm)")
 		return
 	}
 	r.Func(FuncName(f))
-	paths, ok := p.enumPaths(f, 1, 5000)
+	// abstract paths with the helpers (e.g. a "file already has these contents" predicate) spliced in
+	ips, ok := p.ipaths(f)
 	if !ok {
 		r.Unknown("R17d", "writeFileIfChanged paths", f.Pos(), "too many paths")
 		return
 	}
-	var eqCall *ssa.Call
-	p.instrs(f, func(b *ssa.BasicBlock, i int, in ssa.Instruction) {
-		if c, ok := in.(*ssa.Call); ok && calleeName(c) == "bytes.Equal" {
-			eqCall = c
-		}
-	})
-	if eqCall == nil {
-		r.Fail("R17d", "writeFileIfChanged compares", f.Pos(), "no bytes.Equal comparison of old and new contents", "")
-		return
-	}
-	// compared values: the bytes read from the file named by param 0, and param 1
-	okArgs := false
-	for _, pair := range [][2]int{{0, 1}, {1, 0}} {
-		a, b := eqCall.Call.Args[pair[0]], eqCall.Call.Args[pair[1]]
-		if b == ssa.Value(f.Params[1]) {
-			if ex, ok := a.(*ssa.Extract); ok {
-				if rc, ok := ex.Tuple.(*ssa.Call); ok && calleeName(rc) == "os.ReadFile" && rc.Call.Args[0] == ssa.Value(f.Params[0]) {
-					okArgs = true
-				}
-			}
-		}
-	}
-	r.Check("R17d", "writeFileIfChanged compares the file's bytes with the new data", instrPos(eqCall), okArgs, "bytes.Equal must compare os.ReadFile(name) with data")
-	eqKey := sk(eqCall) + " == true"
+	name, data, perm := f.Params[0].Name(), f.Params[1].Name(), f.Params[2].Name()
+	readKey := "os.ReadFile(" + name + ")"
+	eqA := "bytes.Equal(" + readKey + "#0," + data + ")"
+	eqB := "bytes.Equal(" + data + "," + readKey + "#0)"
+	nEq := 0
 	badEq, badNe := "", ""
-	for _, pt := range paths {
-		ret, isRet := pt.endsInReturn()
-		if !isRet {
+	for _, ip := range ips {
+		if ip.Exit != "return" {
 			continue
 		}
-		var ws []*ssa.Call
-		for _, b := range pt.Blocks {
-			for _, in := range b.Instrs {
-				if c, ok := in.(*ssa.Call); ok && calleeName(c) == "os.WriteFile" {
-					ws = append(ws, c)
-				}
+		ws := ip.eventsOf("os.WriteFile")
+		if ip.Rels[eqA+" == true"] || ip.Rels[eqB+" == true"] {
+			nEq++
+			if !ip.Rels[eqRel("nil", readKey+"#1")] {
+				badEq = "the file is treated as unchanged without the fact that reading it succeeded (a missing file and empty new contents compare equal): " + ip.Trace
 			}
-		}
-		if pt.rels()[eqKey] {
 			if len(ws) > 0 {
-				badEq = "os.WriteFile on a path where the contents are equal: " + pt.String()
+				badEq = "os.WriteFile on a path where the contents are equal: " + ip.Trace
 			}
 			continue
 		}
-		if len(ws) != 1 || len(ret.Results) != 1 || ret.Results[0] != ssa.Value(ws[0]) {
-			badNe = "a path on which the contents differ (or the file is unreadable) does not end in `return os.WriteFile(...)`: " + pt.String()
+		if len(ws) != 1 || len(ip.Ret) != 1 || ip.Ret[0] != ws[0].Key {
+			badNe = "a path on which the contents differ (or the file is unreadable) does not end in `return os.WriteFile(...)`: " + ip.Trace
 			continue
 		}
-		for i := 0; i < 3; i++ {
-			if ws[0].Call.Args[i] != ssa.Value(f.Params[i]) {
-				badNe = fmt.Sprintf("os.WriteFile argument %d is not parameter %s", i, f.Params[i].Name())
+		for i, want := range []string{name, data, perm} {
+			if ws[0].Args[i] != want {
+				badNe = fmt.Sprintf("os.WriteFile argument %d is %s, not parameter %s", i, ws[0].Args[i], want)
 			}
 		}
 	}
+	r.Check("R17d", "writeFileIfChanged compares the file's bytes with the new data", f.Pos(), nEq > 0,
+		"no returning path carries the fact bytes.Equal(os.ReadFile(name) contents, data) == true: old and new contents are not compared")
 	r.Check("R17d", "unchanged file is not rewritten", f.Pos(), badEq == "", badEq)
 	r.Check("R17d", "changed or missing file is written completely", f.Pos(), badNe == "", badNe)
 	// who may write files in the command
@@ -643,4 +708,15 @@ func constantInt64(c *types.Const) (int64, bool) {
 	var n int64
 	_, err := fmt.Sscan(s, &n)
 	return n, err == nil
+}
+
+// directWriter: the function of the command that calls os.WriteFile directly.
+func directWriter(p *Prog) *ssa.Function {
+	var w *ssa.Function
+	for _, g := range p.FuncsIn(cmdGoosePkg) {
+		if len(blockOfCall(p, g, "os.WriteFile")) > 0 {
+			w = g
+		}
+	}
+	return w
 }
